@@ -242,6 +242,36 @@ func runC12(env *core.Env) {
 			id   string
 		}{"hand-merged-equal-timestamps", core.Store{".ergo/plans.jsonl": l.Bytes(), ".ergo/lock": {}}, first})
 	}
+	{ // a hand-merged log with dependency cycles (each clone added one direction): six tasks of one epic in a ring, two
+		// downstream of it, two unfiled tasks depending on each other, two epics depending on each other
+		l := newSynLog()
+		ep, ep2 := core.IDFor(700), core.IDFor(701)
+		l.Create(SynItem{ID: ep, Epic: true, Title: "ring epic"})
+		l.Create(SynItem{ID: ep2, Epic: true, Title: "other epic"})
+		var ring []string
+		for i := 0; i < 8; i++ {
+			id := core.IDFor(int64(710 + i))
+			ring = append(ring, id)
+			l.Create(SynItem{ID: id, Title: fmt.Sprintf("ring %d", i), In: ep})
+		}
+		for i := 0; i < 6; i++ {
+			l.Link(ring[i], ring[(i+1)%6])
+		}
+		l.Link(ring[6], ring[0])
+		l.Link(ring[7], ring[6])
+		u1, u2 := core.IDFor(720), core.IDFor(721)
+		l.Create(SynItem{ID: u1, Title: "unfiled 1"})
+		l.Create(SynItem{ID: u2, Title: "unfiled 2"})
+		l.Link(u1, u2)
+		l.Link(u2, u1)
+		l.Link(ep, ep2)
+		l.Link(ep2, ep)
+		seeds = append(seeds, struct {
+			name string
+			st   core.Store
+			id   string
+		}{"hand-merged-cycles", core.Store{".ergo/plans.jsonl": l.Bytes(), ".ergo/lock": {}}, ep})
+	}
 	if sample, err := core.Snapshot(filepath.Join(env.Repo, "testdata/sample-project")); err == nil && len(sample.Log()) > 0 && env.Thorough() {
 		seeds = append(seeds, struct {
 			name string
@@ -390,7 +420,7 @@ func runC12(env *core.Env) {
 	env.Finish("model_checking", map[string]interface{}{
 		"states": evals, "transitions": commands, "traces_validated_against_impl": validated, "samples": samples.list,
 		"evaluations": evals, "distinct_nontrivial": classes.len(), "exhaustive": env.TimeLeft(),
-		"rule":         "log contents = seeds (CLI-produced logs, a hand-merged log with equal timestamps, thorough: the legacy sample) x {every truncation offset (quick: last two lines fully, every 7th elsewhere), every line delete/duplicate/adjacent swap, conflict markers / unknown event type / blank lines at every position, all permutations of the first 5 (6) lines, one (8) bit flips per byte, every field of every event replaced by null/0/true/[]/{}/\"\"/bad timestamps or removed, empty/CRLF/BOM/NUL/garbage/no-trailing-newline, a 10 MiB-1 and a 10 MiB+1 line}; each x 11 read commands (3x, 8x on equal sort keys) and 6 mutating commands; distinct = (mutation family, command, exit)",
+		"rule":         "log contents = seeds (CLI-produced logs, a hand-merged log with equal timestamps, a hand-merged log with dependency cycles among siblings, unfiled tasks and epics, thorough: the legacy sample) x {every truncation offset (quick: last two lines fully, every 7th elsewhere), every line delete/duplicate/adjacent swap, conflict markers / unknown event type / blank lines at every position, all permutations of the first 5 (6) lines, one (8) bit flips per byte, every field of every event replaced by null/0/true/[]/{}/\"\"/bad timestamps or removed, empty/CRLF/BOM/NUL/garbage/no-trailing-newline, a 10 MiB-1 and a 10 MiB+1 line}; each x 11 read commands (3x, 8x on equal sort keys) and 6 mutating commands; distinct = (mutation family, command, exit)",
 		"commands_run": commands, "commands_exiting_1": failing, "nondeterministic_outputs": nondet, "seeds": len(seeds),
 		"unconfirmed_candidates": unconfirmed.Load(),
 	}, []string{
